@@ -1,14 +1,17 @@
 #!/bin/bash
-# confirm_seed.sh <worktree> : demo must FAIL with the change applied and PASS with it stashed
+# confirm_seed.sh <worktree> : demo must FAIL with the change applied and PASS with it reverted.
+# (does not use `git stash`: the stash is shared by all worktrees of a repository)
 W=$1
 run_demo() {
-  ( cd $W/demo && bash -c "$(head -1 BUILD.txt | sed 's/#.*//')" >/dev/null 2>&1; timeout 120 ./demo > /tmp/confirm.out 2>&1; echo $? )
+  ( cd $W/demo && bash -c "$(head -1 BUILD.txt | sed 's/#.*//')" >/dev/null 2>&1; timeout 120 ./demo > /tmp/confirm.$$.out 2>&1; echo $? )
 }
 cd $W
 git diff --quiet -- cds src && { echo "no change applied in $W"; exit 2; }
-A=$(run_demo); tail -2 /tmp/confirm.out
-git stash -q -- cds src
-B=$(run_demo); tail -1 /tmp/confirm.out
-git stash pop -q
+git diff -- cds src > /tmp/confirm.$$.diff
+A=$(run_demo); tail -2 /tmp/confirm.$$.out
+git apply -R /tmp/confirm.$$.diff
+B=$(run_demo); tail -1 /tmp/confirm.$$.out
+git apply /tmp/confirm.$$.diff
+rm -f /tmp/confirm.$$.diff /tmp/confirm.$$.out
 echo "with-change rc=$A  without-change rc=$B"
 [ "$A" != "0" ] && [ "$B" = "0" ]
